@@ -283,6 +283,16 @@ Proof. intros W S H. apply (safe_step TNone b f f' W S cs D (reach_refl f) (avoi
 Lemma quiet_rwalk b f f' cs : wf f -> step TNone b f f' -> rwalk f' D cs = rwalk f D cs.
 Proof. intros W S. apply (rwalk_step TNone b f f' W S cs D (reach_refl f) (avoids_none f cs D)). Qed.
 
+(* a step that touches no entry leaves the inside as it is *)
+Lemma quiet_reach b f f' j : wf f -> step TNone b f f' -> reach f' j -> reach f j.
+Proof.
+  intros W S R. induction R as [|j n i Rj IH Hin]; [constructor|].
+  assert (Hb : blookup n (ents f' j) = Some i).
+  { apply In_blookup_nodup; auto. apply (wf_names f' (st_wf _ _ _ _ S) j Rj). }
+  rewrite (st_dent _ _ _ _ S j n (reach_lt f j W IH)) in Hb by (unfold TNone; tauto).
+  apply (reach_step f j n i); auto. apply blookup_In. exact Hb.
+Qed.
+
 Lemma quiet_blookup b f f' j n : step TNone b f f' -> j < f_next f -> blookup n (ents f' j) = blookup n (ents f j).
 Proof. intros S Hj. apply (st_dent _ _ _ _ S j n Hj). unfold TNone. tauto. Qed.
 
